@@ -93,7 +93,7 @@ static void* core_new_block(size_t size, bool zero) {
   }
 #else
   {
-    size_t d = (size_t)(nd_u8() & 0x10);             /* 0 or 16: block position in its page is arbitrary (16-aligned) */
+    size_t d = (size_t)(nd_u8() & 0x18);             /* 0, 8, 16 or 24: block position in its page is arbitrary (a multiple of the class size's power-of-two part, see below: blocks of the 8-byte class are only 8-aligned) */
     /* contract (C16.good_size, C16.page_start): a small/medium request is served from its size class: usable size is the
        class size and the block address is a multiple of the class size's power-of-two part */
     const size_t bs = mi_good_size(size);
